@@ -94,7 +94,7 @@ pub fn focus_misc() -> Vec<Focus> {
     let mut v = Vec::new();
     for via in [VIA_ERASED, VIA_TYPED] {
         v.push(f(Op::Clear, 0, via, 0, 0));
-        for kind in 0..4u8 {
+        for kind in 0..GET_KINDS {
             v.push(f(Op::Get, kind, via, 0, 0));
         }
     }
@@ -104,7 +104,7 @@ pub fn focus_misc() -> Vec<Focus> {
     v
 }
 
-const REG_DEFAULT: [(usize, u32); 4] = [(4, 3), (12, 4), (48, 2), (600, 1)];
+const REG_DEFAULT: [(usize, u32); 5] = [(4, 12), (12, 16), (48, 8), (600, 4), (3000, 1)];
 
 fn base(prop: &'static str) -> Profile {
     Profile {
@@ -290,7 +290,7 @@ pub fn profile(prop: &str) -> Option<Profile> {
             p.ops.extend_from_slice(&[(Op::Get, 25), (Op::Mutate, 25), (Op::Swap, 25), (Op::Iter, 6)]);
             let mut fo = Vec::new();
             for via in [VIA_ERASED, VIA_TYPED] {
-                for kind in 0..4u8 {
+                for kind in 0..GET_KINDS {
                     fo.push(f(Op::Get, kind, via, 0, 0));
                 }
             }
